@@ -340,8 +340,16 @@ def status_unit(ctx, unit):
     @app.route('/s')
     def h():
         mode = cur['mode']
-        if mode == 'response':
+        if mode in ('response', 'response_then_refused_status'):
             app.response.status = cur['status']
+            if mode == 'response_then_refused_status':
+                # the application tries a status the framework refuses, catches the error and keeps its answer
+                for bad in (1000, 0, '99 Bottles', -204):
+                    try:
+                        app.response.status = bad
+                        raise AssertionError('harness: status %r was accepted' % (bad,))
+                    except ValueError:
+                        pass
             for k in ENTITY + ['X-Other']:
                 app.response.headers[k] = cur['vals'][k]
             return cur.get('body', '')
@@ -389,7 +397,7 @@ def status_unit(ctx, unit):
             short = [k for k in vals if k not in forbidden and names2.count(k) != 2]
             if short:
                 ctx.violation('multi-valued-header-reordered-or-merged', f'{cls.__name__}({code}): {short} not emitted once per value', wit)
-        for mode in ('response', 'raised', 'raised_after_peek'):
+        for mode in ('response', 'raised', 'raised_after_peek', 'response_then_refused_status'):
             cur.update(mode=mode, status=code, vals=vals)
             r = call_app(app, make_environ('GET', '/s'))
             ctx.count('wsgi_emissions')
